@@ -80,3 +80,9 @@ chk("C06", "model_checking",
     "Map iteration inside dependencies is not behind the seam (cross-checked by repetition only). Maps with more than 4 keys are permuted by rotations/reversals (2n orders), not n! orders.",
     "exhaustive enumeration of controlled nondeterminism (map iteration orders as choice points, deviation-bounded DFS) on the instrumented implementation",
     "DESIGN.md §3 C06")
+
+chk("C11", "model_checking",
+    "A small automaton per entry point (accepting exactly the prefixes of Start/Done pairs in pipeline order plus the closing rule) is explored exhaustively, and every implementation run over 6 entry flows x 18 faults (at least one per pipeline stage) x 3 channel capacities x 2 consumers is replayed through it: event order, closure (observed without timers by closing the channel under recover) and milestones; faults are asserted to arise in their intended stage.",
+    "The model is permissive where the statement is (a failing stage may or may not emit its completion event). Closure is observed by attempting a second close.",
+    "explicit-state exploration of a model automaton plus conformance replay of every enumerated implementation run (fault x entry point x configuration) against it",
+    "DESIGN.md §3 C11")
